@@ -326,7 +326,14 @@ func Decl(t *rapid.T, depth int) *recipe.Node {
 		for i := 0; i < k; i++ {
 			f := recipe.Id("F" + strings.Repeat("x", i)).Add(recipe.S().C(rapid.SampledFrom([]string{"Int", "String", "Bool"}).Draw(t, "ftype")))
 			if rapid.Bool().Draw(t, "tagged") {
-				f = f.C("Tag", []recipe.TagKV{{K: "json", V: recipe.Text(Str(t, "tag"))}})
+				tag := []recipe.TagKV{{K: "json", V: recipe.Text(Str(t, "tag"))}}
+				if rapid.IntRange(0, 2).Draw(t, "casekeys") == 0 {
+					// keys that differ in letter case only are different keys
+					for _, k := range []string{"JSON", "Json", "xml", "XML"}[:rapid.IntRange(1, 4).Draw(t, "ncasekeys")] {
+						tag = append(tag, recipe.TagKV{K: recipe.Text(k), V: recipe.Text(k + "-value")})
+					}
+				}
+				f = f.C("Tag", tag)
 			}
 			fs = append(fs, f)
 		}
